@@ -51,6 +51,11 @@ def summand(v, scalar_shape):
 
 def single(paths, ctx, oid, props, fnq):
     ok = len(paths) == 1 and paths[0].outcome == "return"
+    if paths and all(p_.outcome == "raise" for p_ in paths) and all(not p_.cond for p_ in paths):
+        # the body raises unconditionally on an input of its declared domain: the method cannot be called at all
+        ctx.oblige(oid.replace("/struct/straight_line", "/post/does_not_raise_on_valid_input"), False, [], props, kind="struct", fn=fnq,
+                   replay=dict(kind="simple", cls=fnq.rsplit(".", 2)[-2] if fnq.count(".") >= 2 else fnq, vars={}), note=f"raises {[getattr(p_.value, 'exc', '?') for p_ in paths][:3]} unconditionally")
+        return None
     ctx.oblige(oid, ok, [], props, kind="applicability", fn=fnq, note="this contract covers a method with a single straight-line path (value-dependent branching only through jnp.where); "
                f"found {len(paths)} path(s): {[p_.outcome for p_ in paths][:6]}")
     return paths[0] if ok else None
